@@ -22,8 +22,11 @@ Record sess_cfg := mk_cfg {
   sc_aunp : option unpacker; sc_vunp : option unpacker;
   sc_artp : N; sc_artcp : N; sc_vrtp : N; sc_vrtcp : N }.
 
+(* the clock rate is a Go int: the value strconv.Atoi returned (64 bits, two's complement) *)
+Definition int64_of (z : Z) : Z := ((z + 9223372036854775808) mod 18446744073709551616 - 9223372036854775808)%Z.
 (* fix: no unpacker for a track whose clock rate makes uint32(clockRate/1000) zero *)
 Definition mk_unpacker (fx : bool) (k : ukind) (pt clock : Z) : option unpacker :=
+  let clock := int64_of clock in
   if fx && (w32 (Z.quot clock 1000) =? 0) then None else Some (mk_unp k pt clock).
 
 (* sdp.ParseSdp2LogicContext (logic part) + BaseInSession.InitWithSdp + SetupWithChannel *)
